@@ -69,7 +69,7 @@ def eigen_map(ana):
     return fi, b, rt, e, d, q, eigh[0], diags[0]
 
 
-@rule("C03", "R2", "NUM", "the eigenvalue map is evaluated without catastrophic cancellation on either sign of d", floor=1)
+@rule("C03", "R2", "NUM", "the eigenvalue map is evaluated without catastrophic cancellation on either sign of d", floor=1, evidence=True)
 def r2(ctx):
     fi, b, rt, e, d, q, eigh, diag = eigen_map(ctx.ana)
     pieces = tm.pieces_of(e)
@@ -238,7 +238,7 @@ def r4(ctx):
     plumb(ctx, ["min_meaningful_covariance"])
 
 
-@rule("C03", "R5", "NUM", "every log-determinant consumer obtains it without forming the determinant", floor=3)
+@rule("C03", "R5", "NUM", "every log-determinant consumer obtains it without forming the determinant", floor=3, evidence=True)
 def r5(ctx):
     ana = ctx.ana
     # site 1: MRF update
